@@ -1,4 +1,5 @@
 import PlumVerif.Proofs.EventsInv
+import PlumVerif.Proofs.EventsK
 /-
 C13 — event dispatch: ordered callbacks, consistent stored value, once means once.
 
@@ -70,6 +71,61 @@ theorem plain_entries_awaited (sc : Nat → Script) (evs : List Ev) (i : Nat) (x
     simp only at hp; rw [hp] at this; simp at this
   | some v =>
     exact ⟨v, by simp only [awaited, List.mem_filterMap]; exact ⟨(y, some v), hm, rfl⟩⟩
+
+/-! ### the only entries a dispatch passes without awaiting are wrappers that had been unsubscribed -/
+
+/-- **a skipped entry had left the live list** (audit item 3): under every schedule, a snapshot
+entry that a dispatch passed without awaiting it is a `subscribe_once` wrapper AND is recorded as
+removed from its live list (by an explicit unsubscribe, or by another dispatch that awaited it) —
+a machine that simply never awaits once-callbacks does not satisfy this -/
+theorem skipped_entry_was_removed (sc : Nat → Script) (evs : List Ev) (i : Nat) (x : Sub)
+    (h : (x, none) ∈ ((run sc init evs).d i).trail) :
+    x.once = true ∧ ∃ c, (x.sid, c) ∈ (run sc init evs).removed :=
+  ⟨(dispatch_order_and_threading sc evs i).2.2.1 x h,
+    invK_run sc evs init (inv_init sc) invK_init i x h⟩
+
+theorem walk_log_mono (sc : Nat → Script) (i name : Nat) (rest : List Sub) :
+    ∀ (s : St) (val : Nat) (e : LogE), e ∈ s.log → e ∈ (walk sc i name s rest val).log := by
+  induction rest with
+  | nil => intro s val e he; simpa [walk, storeSt] using he
+  | cons u rest ih =>
+    intro s val e he
+    unfold walk
+    split
+    · exact ih _ _ e (by simpa [skipSt] using he)
+    · split
+      · exact ih _ _ e (by simp [invokeSt, he])
+      · simp [suspendSt, invokeSt, he]
+
+/-- **a once entry still live when the dispatch reaches it IS awaited** — in ANY state (hence at
+every point of every schedule): when dispatch task `i` reaches snapshot entry `u` with value
+`val` and `u` is a plain entry, or a once-wrapper that is still in the live list, then `u`'s
+callback is awaited with `val` (and a once-wrapper leaves the live list at that moment) -/
+theorem live_entry_awaited (sc : Nat → Script) (s : St) (i name : Nat) (u : Sub) (rest : List Sub) (val : Nat)
+    (h : gone s name u = false) :
+    (⟨i, u, val⟩ : LogE) ∈ (walk sc i name s (u :: rest) val).log := by
+  unfold walk
+  simp only [h, Bool.false_eq_true, if_false]
+  split
+  · exact walk_log_mono sc i name rest _ _ _ (by simp [invokeSt])
+  · simp [suspendSt, invokeSt]
+
+/-- a finished dispatch has dealt with every entry of its snapshot: each one was awaited by it, or
+had been removed from the live list -/
+theorem snapshot_entry_awaited_or_removed (sc : Nat → Script) (evs : List Ev) (i f : Nat) (x : Sub)
+    (hdone : ((run sc init evs).d i).ph = .done f) (hx : x ∈ ((run sc init evs).d i).snapshot) :
+    (∃ v, (x, v) ∈ awaited ((run sc init evs).d i).trail) ∨ ∃ c, (x.sid, c) ∈ (run sc init evs).removed := by
+  have hall := ((dispatch_order_and_threading sc evs i).2.2.2.2 f hdone).1
+  rw [← hall] at hx
+  obtain ⟨⟨y, o⟩, hm, rfl⟩ := List.mem_map.1 hx
+  cases o with
+  | none => exact Or.inr (skipped_entry_was_removed sc evs i y hm).2
+  | some v => exact Or.inl ⟨v, by simp only [awaited, List.mem_filterMap]; exact ⟨(y, some v), hm, rfl⟩⟩
+
+/-- a once callback subscribed before an unobstructed dispatch IS awaited (non-vacuity of the
+clause above: awaiting no once-callback at all is not an option) -/
+example : (run (fun _ => ⟨0, .add 1⟩) init [.subscribeOnce 0 7, .spawnDispatch 0 5, .stepD 0]).log = [⟨0, ⟨0, 7, true⟩, 5⟩] := by
+  decide
 
 /-- **then stores and wakes**: the step in which a dispatch task finishes stores its final value
 under its name and leaves no task waiting on that name -/
